@@ -42,6 +42,11 @@ TEMPLATES = [
     fn("ersetze_erstes", [("l", TL(GT), False), ("x", GT, False)], TL(GT), [setv(idx_lv(lvid("l"), zl(1)), ident("x")), RET(ident("l"))]),       # writes its by-value list parameter
     fn("verschachtelt", [("x", GT, False)], TL(GT), [RET(call("als_paar", [("a", call("identitaet", [("x", ident("x"))])), ("b", ident("x"))]))]),   # generic calling generics
     fn("hinterstes", [("l", TL(GT), False)], GT, [RET(call("letztes", [("l", ident("l")), ("n", zl(1))]))]),      # a generic calling a self-recursive generic
+    # two type parameters: each binds on its own (also to the same type)
+    fn("erstes_von", [("a", GT, False), ("b", G("R"), False)], GT, [RET(ident("a"))]),
+    fn("zweites_von", [("a", GT, False), ("b", G("R"), False)], G("R"), [RET(ident("b"))]),
+    fn("laengen_summe", [("l", TL(GT), False), ("m", TL(G("R")), False)], TZ, [RET(bin_("plus", un("len", ident("l")), un("len", ident("m"))))]),
+    fn("vertausche_in", [("a", GT, True), ("b", G("R"), False), ("c", GT, False)], G("R"), [setv(lvid("a"), ident("c")), RET(ident("b"))]),
     fn("vorgabe", [("x", GT, False)], GT, [var("d", GT, {"k": "std", "t": GT}, False), RET(ident("d"))]),
 ]
 # a generic body that names a type of its own module: the alias Wert (= Kommazahl) is private to the declaring module,
@@ -92,6 +97,17 @@ def cases(tier, rng):
             # a by-value list parameter written by the generic callee: the caller's list must be unchanged
             su2 = sl + [var("gr", TL(t), gcall("ersetze_erstes", b, [("l", ident("gl")), ("x", v2)]), False)]
             cs.append(Case("gen:ersetze_erstes:%s" % enc, semgen.pair2(ident("gr"), TL(t), ident("gl"), TL(t))[0], semgen.pair2(ident("gr"), TL(t), ident("gl"), TL(t))[1], su2))
+    encs = list(VALUES)
+    for e1, e2 in [(a, b) for a in encs for b in encs if (a, b) in {("Z", "T"), ("T", "Z"), ("K", "K"), ("C", "LZ"), ("Paar", "W"), ("W", "Paar"), ("LZ", "LZ"), ("T", "T")}]:
+        (t1, v1), (t2, v2) = VALUES[e1], VALUES[e2]
+        b = {"T": t1, "R": t2}
+        cs.append(Case("gen2:erstes_von:%s:%s" % (e1, e2), gcall("erstes_von", b, [("a", v1[0]), ("b", v2[1])]), t1))
+        cs.append(Case("gen2:zweites_von:%s:%s" % (e1, e2), gcall("zweites_von", b, [("a", v1[0]), ("b", v2[1])]), t2))
+        if "l" not in t1 and "l" not in t2:
+            cs.append(Case("gen2:laengen_summe:%s:%s" % (e1, e2), gcall("laengen_summe", b, [("l", {"k": "list", "et": t1, "vals": [v1[0], v1[1]]}), ("m", {"k": "list", "et": t2, "vals": [v2[0]]})]), TZ))
+        su = [var("g2a", t1, v1[0], False)]
+        r = {"k": "pair"} if False else None
+        cs.append(Case("gen2:vertausche_in:%s:%s" % (e1, e2), ident("g2a"), t1, su + [var("g2r", t2, gcall("vertausche_in", b, [("a", lvid("g2a")), ("b", v2[0]), ("c", v1[1])]), False)]))
     return [c for c in cs if c is not None]
 
 
